@@ -497,7 +497,16 @@ def verdictMsg (args : List String) (impl : String) : String :=
       if impl == want then "ok"
       else if msgType16 t == 3 then "bad:C12:exception" else "bad:C12:roundtrip"
     | _, _, _, _, _ => "na"
-  | ["unmarshal", _] =>
+  | ["unmarshal", hx] =>
+    -- the exception path is taken exactly for headers of type EXCEPTION, and never touches the caller's struct
+    let hdrTyp : Option Int := match (parseHex hx).bind (decodes .msg) with
+      | some (.messageBegin _ t _) => some t
+      | _ => none
+    let tgt0 := s!"tgt {target0.t} {toHex target0.m}"
+    if hdrTyp == some 3 && !impl.startsWith "PANIC" && !((impl.startsWith "appex " || impl.startsWith "err ") && impl.endsWith tgt0) then
+      "bad:C12:exception-path"
+    else if hdrTyp.isSome && hdrTyp != some 3 && impl.startsWith "appex " then "bad:C12:exception-path"
+    else
     match impl.splitOn " " with
     | "PANIC" :: _ => "bad:C03:panic"
     | "OOB" :: _ => "bad:C03:oob"
